@@ -1,6 +1,7 @@
 """R-FRESH -- every introduced name is fresh for the set it joins; R-EPS -- the epsilon used in the keys is the
 epsilon the automaton is told about."""
 import ast
+import re
 
 from .. import abseval
 from ..astutil import u, names_in, walk_no_nested, must_atoms
@@ -47,9 +48,24 @@ def check_provider(ctx, rep, f):
     if not rets:
         rep.undecided(RULE + '.provider', f, 'def ' + f.name, 'no return statement')
         return
+    def strip_cast(t):
+        # Variable(x) / State(x) / Symbol(x): str subclasses and NewTypes compare and hash as the string they wrap
+        m = re.fullmatch(r'(?:\w+\.)?(?:Variable|Terminal|State|Symbol|nfaSymbol)\((.+)\)', t)
+        return m.group(1) if m else t
+    explicit_none = []
     for r in rets:
-        if r.value is None:
-            rep.violates(RULE + '.provider', f, r, 'a provider of fresh names returns None')
+        if r.value is None or (isinstance(r.value, ast.Constant) and r.value.value is None):
+            # `return None` right after the candidate loop is the fall-off of that loop, written out
+            prev = None
+            for blk in ast.walk(f.node):
+                for fld in ('body', 'orelse', 'finalbody'):
+                    lst = getattr(blk, fld, None)
+                    if isinstance(lst, list) and r in lst and lst.index(r) > 0:
+                        prev = lst[lst.index(r) - 1]
+            if isinstance(prev, ast.For):
+                explicit_none.append(cfg.n_of(prev))
+            else:
+                rep.violates(RULE + '.provider', f, r, 'a provider of fresh names returns None')
             continue
         nid = cfg.n_of(r)
         atoms = set(ma.get(nid, frozenset())) | {a[:4] for a in fx.guard_atoms(nid)}
@@ -66,8 +82,9 @@ def check_provider(ctx, rep, f):
                             atoms.add(a[:4])
                     # Variable(A) tested, then A = Variable(A): the tested text mentions the old A
         ok = False
+        stexts = {strip_cast(t) for t in texts}
         for a in atoms:
-            if a[0] == 'in' and a[3] is False and (a[2] in universes or a[2] in alias) and a[1] in texts:
+            if a[0] == 'in' and a[3] is False and (a[2] in universes or a[2] in alias) and (a[1] in texts or strip_cast(a[1]) in stexts):
                 ok = True
         # raise-on-exhaustion providers: `for s in symbols: ... if symbol not in Sigma: return symbol`
         if ok:
@@ -75,7 +92,7 @@ def check_provider(ctx, rep, f):
         else:
             rep.violates(RULE + '.provider', f, r, 'the provider returns {} on a path that does not establish `{} not in <universe>`: the "fresh" name can coincide with an existing one'.format(cand, cand))
     # implicit fall-off
-    falls = [p for (p, lab) in cfg.pred[cfg.exit] if not isinstance(cfg.node[p].stmt, ast.Return)]
+    falls = [p for (p, lab) in cfg.pred[cfg.exit] if not isinstance(cfg.node[p].stmt, ast.Return)] + [p for p in explicit_none if p is not None]
     for p in falls:
         node = cfg.node[p]
         if node.kind == 'for':
@@ -231,6 +248,31 @@ def check_request_order(ctx, rep, f):
                     and ctx.callee_name(g, st.value) in PROVIDERS and ctx.callee_name(g, st.value) != '_fresh_nfa_state' and st.value.args:
                 reqs.append((g, gx, st))
     n = 0
+    # requests made through a helper that registers the name before it returns (request and add are one step)
+    for g in [f] + list(f.nested.values()):
+        for c0 in ctx.prog.calls_in(g):
+            r0 = ctx.resolve_call(g, c0)
+            if r0 is None or r0.kind != 'func' or r0.target.parent is not None or ctx.callee_name(g, c0) in PROVIDERS:
+                continue
+            h = r0.target
+            inner = [st for st in walk_no_nested(h.node) if isinstance(st, ast.Assign) and len(st.targets) == 1 and isinstance(st.targets[0], ast.Name)
+                     and isinstance(st.value, ast.Call) and ctx.callee_name(h, st.value) in PROVIDERS]
+            if len(inner) != 1:
+                continue
+            hx = ctx.facts(h)
+            name = inner[0].targets[0].id
+            # only a helper that hands the requested name back to its caller is a provider of its own
+            if not any(isinstance(x, ast.Return) and isinstance(x.value, ast.Name) and x.value.id == name for x in walk_no_nested(h.node)):
+                continue
+            adds = {node.id for node in hx.cfg.node if node.kind == 'stmt' and isinstance(node.stmt, ast.Expr) and isinstance(node.stmt.value, ast.Call)
+                    and isinstance(node.stmt.value.func, ast.Attribute) and node.stmt.value.func.attr == 'add' and node.stmt.value.args and u(node.stmt.value.args[0]) == name}
+            rets = [hx.cfg.n_of(x) for x in walk_no_nested(h.node) if isinstance(x, ast.Return)]
+            n += 1
+            start = hx.cfg.n_of(inner[0])
+            if adds and rets and all(hx.cfg.must_pass(adds, t, start=b) for t in rets for (b, _) in hx.cfg.succ[start] if t in hx.cfg.reachable(b) or t == b):
+                rep.holds(RULE + '.order', g, c0, 'the name is requested through {}, which adds it to the universe on every path before it returns'.format(h.name))
+            else:
+                rep.violates(RULE + '.order', g, c0, 'the helper {} can return the requested name without adding it to the universe: the next request can return the same name'.format(h.name))
     for (g, gx, st) in reqs:
         c = gx.cfg
         name = st.targets[0].id
@@ -506,8 +548,13 @@ def check_epsilon_constants(ctx, rep, funcs, rule='R-EPS.const'):
 
                         def base(x):
                             x = resolve_alias(f, x) if x is not None else None
-                            while isinstance(x, ast.Call) and isinstance(x.func, ast.Attribute) and x.func.attr == 'copy' and not x.args:
-                                x = resolve_alias(f, x.func.value)
+                            while True:
+                                if isinstance(x, ast.Call) and isinstance(x.func, ast.Attribute) and x.func.attr == 'copy' and not x.args:
+                                    x = resolve_alias(f, x.func.value)
+                                elif isinstance(x, ast.Call) and isinstance(x.func, ast.Name) and x.func.id in ('set', 'frozenset') and len(x.args) == 1 and not x.keywords:
+                                    x = resolve_alias(f, x.args[0])
+                                else:
+                                    break
                             return u(x) if x is not None else None
                         n += 1
                         if base(er.args[0]) == base(sig):
